@@ -142,7 +142,7 @@ used and not expired: the claim guarantees that nobody has written the record si
 theorem C06_decision_instant (p : Params) (preC preN : Nat) (ths : List Thread) (evs : List Ev)
     (hf : freshThreads ths = true) (i : Nat) (t : Thread)
     (hi : (run .repaired p (init preC preN ths) evs).ths[i]? = some t) (hpc : t.pc = .checked)
-    (hs : t.spell = 0)
+    (hs : t.isMain = true)
     (h : (tstep .repaired p (run .repaired p (init preC preN ths) evs).st i t).2.pc = .decided) :
     let st := (run .repaired p (init preC preN ths) evs).st
     st.code.IsRevoked = false ∧ st.code.IsActivated = false ∧ ¬ (st.code.ActivationExpiresAt < st.now) := by
@@ -164,13 +164,16 @@ theorem C06_decision_instant (p : Params) (preC preN : Nat) (ths : List Thread) 
 re-decision saw an expired, revoked or used record ends there (`C06_decision_instant` is the only way to
 `decided`) and never reaches the one step that adds a mapping. -/
 theorem C06_create_only_after_decision (p : Params) (st : Store) (i : Nat) (t : Thread)
-    (h : st.maps.length < (tstep .repaired p st i t).1.maps.length) : t.spell = 0 ∧ t.pc = .decided := by
-  have hs : t.spell = 0 := by
+    (h : st.maps.length < (tstep .repaired p st i t).1.maps.length) : t.isMain = true ∧ t.pc = .decided := by
+  have hs : t.isMain = true := by
     apply Classical.byContradiction
     intro hs
     simp only [tstep, hs, ↓reduceIte] at h
-    unfold tstepO at h
-    (repeat' split at h) <;> simp_all
+    split at h
+    · have hst : (tstepP st t).1 = st := by unfold tstepP; split <;> rfl
+      rw [hst] at h; exact absurd h (Nat.lt_irrefl _)
+    · unfold tstepO at h
+      (repeat' split at h) <;> simp_all
   refine ⟨hs, ?_⟩
   simp only [tstep, hs, ↓reduceIte] at h
   have hf := updateRec_fields st t
@@ -192,10 +195,23 @@ the claim stays keyed by the raw string lets such a request into the read-check-
 different claim: the implementation then reports `ok` where this theorem says it cannot.) -/
 theorem C06_other_spelling (p : Params) (preC preN : Nat) (ths : List Thread) (evs : List Ev)
     (hf : freshThreads ths = true) (i : Nat) (t : Thread)
-    (hi : (run .repaired p (init preC preN ths) evs).ths[i]? = some t) (hs : t.spell ≠ 0) :
+    (hi : (run .repaired p (init preC preN ths) evs).ths[i]? = some t) (hs : ¬ t.isMain = true) :
     (∀ m, t.res ≠ some (.ok m)) ∧ t.res ≠ some .rok := by
   have h := (inv_run (p := p) evs (inv_init preC preN ths hf)).o i t hi hs
   exact ⟨h.noOk, h.noRok⟩
+
+/-- **Status polls** (`Thread.poll`: `Service.GetConnectionCode`, no claim) are inside the quantifier of `C06_main`
+as well: any number of them, on the same node or another, each with its storage read split into "performed" and
+"returned" so that a read can be answered before an activation writes the record back and be returned after the
+next activation has claimed the code.  A poll reads and nothing else: whatever the interleaving, it leaves the
+store as it is, so what an activation reads under the claim is what the store holds at that moment — never the
+answer to somebody else's earlier read.  (A read path that hands a claimed activation the result of a poll's
+older read makes the implementation report a second `ok` where `C06_main` allows one.) -/
+theorem C06_poll_inert (p : Params) (st : Store) (i : Nat) (t : Thread) (hp : t.poll = true) :
+    (tstep .repaired p st i t).1 = st := by
+  have hm : t.isMain = false := by simp [Thread.isMain, hp]
+  simp only [tstep, hm, hp, ↓reduceIte, Bool.false_eq_true]
+  unfold tstepP; split <;> rfl
 
 /-- Key discipline (T2): neither the claim nor the look-up nor the write-back canonicalises the code string
 (the extractor lists ToLower/ToUpper/TrimSpace/Trim/Fields/normalizeCode among the calls it reports; none occurs). -/
@@ -270,6 +286,12 @@ example : (obs (run .repaired pW (init 0 0 [{ kind := .activate, listener := 101
 example : (obs (run .repaired pW (init 0 0 [{ kind := .activate, listener := 101, laddr := 1, spell := 1 },
       { kind := .activate, listener := 102, laddr := 2, spell := 1 }]) ([.create, .th 0, .th 1] ++ drain 2))).results =
     [.err "notfound", .err "conflict"] := by decide
+/-- a poll whose read is answered before the first activation writes back and returned after the second one has
+claimed and read: the second activation still sees the record as stored ("used") -/
+example : (obs (run .repaired pW (init 0 0 [{ kind := .activate, listener := 101, laddr := 1 },
+      { kind := .revoke, listener := 0, laddr := 0, poll := true }, { kind := .activate, listener := 102, laddr := 2 }])
+      ([.create, .th 0, .th 0, .th 1, .th 0, .th 0, .th 0, .th 0, .th 2, .th 2, .th 1] ++ drain 3))).results =
+    [.ok (101, 1, 500, 1) true, .err "seen:a0r0", .err "conflict"] := by decide
 /-- as found, histories in which the calls do not overlap are safe (two examples; the general statement
 `C06_seq_partial` is not mechanised, see the note at the end) -/
 example : holdsCore pW (thsW.map callOf) (obs (run .asFound pW (init 0 0 thsW) (.create :: drain 2))) = true := by decide
